@@ -9,6 +9,8 @@ VARIABLE l
 Tr == ndJsonDeserialize(IOEnv.TRACE)
 Exact(s) == \A i \in 1..Len(s) : s[i][2] >= 0
 Rs(s) == [i \in 1..Len(s) |-> RDy(s[i])]
+\* logged values ([n,k] exact or [n,16,1] approximate, |value| < 1024) brought to units of 2^-16
+To16(d) == IF d[2] <= 16 THEN d[1] * (2 ^ (16 - d[2])) ELSE d[1] \div (2 ^ (d[2] - 16))
 \* log2 |x| for x = +-2^k (k integer), as a rational; <<999,1>> otherwise
 RECURSIVE Log2Of(_)
 Log2Of(x) == LET a == RAbs(x) IN
@@ -16,10 +18,9 @@ Log2Of(x) == LET a == RAbs(x) IN
              ELSE IF a[2] = 1 /\ a[1] % 2 = 0 THEN 1 + Log2Of(<<a[1] \div 2, 1>>)
              ELSE IF a[1] = 1 /\ a[2] % 2 = 0 THEN Log2Of(<<1, a[2] \div 2>>) - 1
              ELSE 999
-DetLog2OK(det, logged) == LET k == Log2Of(det) IN k = 999 \/ (logged[2] >= 0 /\ REq(RDy(logged), RQ(k)))
+\* a sum of logarithms carries rounding error: compared within 2^-12, not exactly
+DetLog2OK(det, logged) == LET k == Log2Of(det) IN k = 999 \/ (logged[2] >= 0 /\ LET x == To16(logged) - k * 65536 IN (IF x < 0 THEN -x ELSE x) <= 16)
 
-\* logged values ([n,k] exact or [n,16,1] approximate, |value| < 1024) brought to units of 2^-16
-To16(d) == IF d[2] <= 16 THEN d[1] * (2 ^ (16 - d[2])) ELSE d[1] \div (2 ^ (d[2] - 16))
 NearVals(a, b) == a[2] >= 0 /\ b[2] >= 0 /\ LET x == To16(a) - To16(b) IN (IF x < 0 THEN -x ELSE x) <= 16
 \* badly scaled input: the matrix times 2^+-400 factorizes as well, and its log-determinant moves by exactly n*400*ln 2
 \* (the harness subtracts that), although the determinant itself is then outside the floating-point range for n >= 3
@@ -37,21 +38,21 @@ PluOK(e) ==
   /\ EqV(MulVec(A, x, n), b)                                                    \* solve
   /\ EqM(MulR(A, inv, n), IdR(n)) /\ EqM(Rs(e.inv2), inv)                       \* inverse, both variants agree
   /\ REq(det, dA) /\ REq(det, RMul(RQ(e.sign), DiagProd(U, n, n)))              \* determinant = sign * prod(U_ii) = Leibniz
-  /\ e.sgndet = RSign(dA) /\ DetLog2OK(dA, e.lndet2)
+  /\ e.sgndet = RSign(dA) /\ DetLog2OK(dA, e.lnd)
 LdlOK(e) ==
   LET n == e.n  A == Rs(e.A)  L == Rs(e.L)  d == Rs(e.D)  inv == Rs(e.inv)  b == Rs(e.b)  x == Rs(e.x)  det == RDy(e.det)  dA == DetR(A, n)
       Dm == MatR(n, LAMBDA r, c : IF r = c THEN d[r] ELSE RQ(0)) IN
   /\ Exact(e.L) /\ Exact(e.D) /\ Exact(e.x) /\ Exact(e.inv) /\ Exact(e.inv2) /\ e.det[2] >= 0
   /\ UnitLower(L, n) /\ EqM(MulR(MulR(L, Dm, n), TrR(L, n), n), A)
   /\ EqV(MulVec(A, x, n), b) /\ EqM(MulR(A, inv, n), IdR(n)) /\ EqM(Rs(e.inv2), inv)
-  /\ REq(det, dA) /\ e.sgndet = RSign(dA) /\ DetLog2OK(dA, e.lndet2)
+  /\ REq(det, dA) /\ e.sgndet = RSign(dA) /\ DetLog2OK(dA, e.lnd)
 LltOK(e) ==
   LET n == e.n  A == Rs(e.A)  L == Rs(e.L)  inv == Rs(e.inv)  b == Rs(e.b)  x == Rs(e.x)  det == RDy(e.det)  dA == DetR(A, n) IN
   /\ Exact(e.L) /\ Exact(e.x) /\ Exact(e.inv) /\ Exact(e.inv2) /\ e.det[2] >= 0
   /\ Lower(L, n) /\ \A k \in 1..n : E(L, n, k, k)[1] > 0                        \* strictly positive diagonal
   /\ EqM(MulR(L, TrR(L, n), n), A)
   /\ EqV(MulVec(A, x, n), b) /\ EqM(MulR(A, inv, n), IdR(n)) /\ EqM(Rs(e.inv2), inv)
-  /\ REq(det, dA) /\ DetLog2OK(dA, e.lndet2)
+  /\ REq(det, dA) /\ DetLog2OK(dA, e.lnd)
 
 Accept(e) ==
   /\ Exact(e.A)
